@@ -17,7 +17,7 @@
    interleavings).  That statement is checked by schedule search on model and implementation
    (see the check's evidence), which is how the defect repaired by bbf0063 was found. *)
 From Coq Require Import List Arith NArith ZArith Bool.
-From EV Require Import QConc QConcProofs QConcWait QConcWake.
+From EV Require Import QConc QConcProofs QConcWait QConcWake QConcFuel.
 From EV.gen Require GenQ GenQConc.
 Import ListNotations.
 
@@ -104,6 +104,32 @@ Theorem C07_wake_invariant_every_schedule : forall progs schedule n,
   KInv (run_sched n (mkCfg sh0 (start_threads progs) schedule false)).
 Proof. exact wake_invariant_every_schedule. Qed.
 Print Assumptions C07_wake_invariant_every_schedule.
+
+(* the side condition holds on every run (QConcFuel.v: a syntactic bound on the local code between two visible actions,
+   12 iterations against ADV_FUEL = 400, is an invariant of every thread's remaining code) ... *)
+Theorem C07_never_out_of_fuel : forall progs schedule n,
+  stopped_along n (mkCfg sh0 (start_threads progs) schedule false).
+Proof. intros. destruct (init_s progs) as [A B0]. apply never_out_of_fuel; assumption. Qed.
+Print Assumptions C07_never_out_of_fuel.
+
+(* ... so the invariant holds in EVERY reachable configuration, unconditionally *)
+Theorem C07_wake_invariant_unconditional : forall progs schedule n,
+  KInv (run_sched n (mkCfg sh0 (start_threads progs) schedule false)).
+Proof. exact wake_invariant_unconditional. Qed.
+Print Assumptions C07_wake_invariant_unconditional.
+
+(* and the first clause of the property, for every set of thread programs, every schedule and every number of steps:
+   a configuration in which nobody can run, a thread is blocked in wait(), events are pending and notification is
+   enabled exists only if a thread that was released from wait did not drain the queue (or the program destroyed a
+   DisableQueueNotify it never constructed) *)
+Theorem C07_no_lost_wakeup_every_schedule : forall progs schedule n,
+  let cfg := run_sched n (mkCfg sh0 (start_threads progs) schedule false) in
+  (forall t, th_enabled cfg t = false) ->
+  (exists th, In th (ths cfg) /\ status th = TParked false) ->
+  ql (shs cfg) <> [] -> cnc (shs cfg) = 0%Z -> g_under (shs cfg) = false ->
+  g_awake (shs cfg) <> [].
+Proof. intros progs schedule n cfg. apply no_lost_wakeup. apply wake_invariant_unconditional. Qed.
+Print Assumptions C07_no_lost_wakeup_every_schedule.
 
 (* nobody can run, a thread is blocked in wait(), events are pending, notification is enabled, and the program did not
    destroy a DisableQueueNotify it had not constructed  ==>  some thread that was released from wait / waitFor(true)
